@@ -246,6 +246,7 @@ func c12feed(c *core.Check) {
 	c12discardLineage(c)
 	c12namedPatch(c)
 	c12replacerAdd(c)
+	c12patchFollowsMove(c)
 	fd := c.Prog.FuncDecl("generator", "FileManager.Feed")
 	key := "generator.(FileManager).Feed"
 	if fd == nil {
